@@ -306,7 +306,7 @@ CHECKS = {
                  " Half of the mutated hellos carry record-header versions 3.0 .. 3.4."),
         "assumptions": ["a ClientHello split across several TLS records is out of scope (the matcher reads one record by design; crypto/tls never emits that below 16 KiB)",
                         "run with the default toolchain go1.23; hellos of a newer crypto/tls (post-quantum key shares) can be explored by running the thorough tier under go1.26.8"],
-        "min_classes": {"quick": {"C07/resumption-hello": 30, "C07/mutated-grease": 15, "C07/mutated-permuted": 15, "C07/verdict/true": 80, "C07/verdict/false": 80, "C07/shared-matcher-concurrent": 100, "C07/inner-hello-after-termination": 100}},
+        "min_classes": {"quick": {"C07/resumption-hello": 30, "C07/mutated-grease": 15, "C07/record-header-version-3.0": 10, "C07/record-header-version-3.4": 5, "C07/mutated-permuted": 15, "C07/verdict/true": 80, "C07/verdict/false": 80, "C07/shared-matcher-concurrent": 100, "C07/inner-hello-after-termination": 100}},
         "runs": [
             {"name": "differential", "pkg": "./c07", "run": ".", "rapid_checks": {"quick": 120, "thorough": 20000},
              "shards": {"quick": 6, "thorough": 16}, "timeout": {"quick": 600, "thorough": 7200}},
